@@ -401,19 +401,28 @@ class Summary:
         self.loops = 0
         self.entries = []       # (kind, condkey, data-as-term)
         rawconds = {}
+        # loops are numbered by the condition they run under and then by program order: swapping the arms of an `if` that each hold a loop
+        # must not renumber them, while loops that follow one another under the same condition keep their order
+        loops_ = [ev for ev in r.events if ev.kind == 'loop_enter']
+
+        def _loop_key(ev):
+            cs = [(c, pol) for c, pol in ev.conds if not (isinstance(c, tuple) and c and c[0] == 'inloop')]
+            try:
+                return repr(cond_key([(_resort(_phitable(_mask(simplify(c), {}))), pol) for c, pol in cs]))
+            except Exception:
+                return ''
+        loop_order = sorted(range(len(loops_)), key=lambda i_: (_loop_key(loops_[i_]), i_))
         lvnum = {}
-        for ev in r.events:
-            if ev.kind == 'loop_enter':
-                for tn, itx in ev.data[2]:          # in the order of the loop target, with the iteration term each one carries
-                    lvnum.setdefault((tn, itx), len(lvnum))
+        for i_ in loop_order:
+            for tn, itx in loops_[i_].data[2]:          # in the order of the loop target, with the iteration term each one carries
+                lvnum.setdefault((tn, itx), len(lvnum))
         self.lvnum = lvnum
         self._raw_returns = []
         # loop-carried values are ranked by what they are (loop, initial value, update), not by the order in which a traversal
         # happens to meet them: `x - llk` and `-llk + x` must give the same numbering
         loop_ord, ranked = {}, []
-        for ev in r.events:
-            if ev.kind == 'loop_enter':
-                loop_ord.setdefault(id(ev.node), len(loop_ord))
+        for i_ in loop_order:
+            loop_ord.setdefault(id(loops_[i_].node), len(loop_ord))
         for ev in r.events:
             if ev.kind == 'carry':
                 entry, body = ev.data
